@@ -46,7 +46,7 @@ func init() {
 			"C2 state declared goroutine-confined is only accessed in functions reachable (call graph) from its owner goroutine's entry; C3 fields used with sync/atomic are only used with sync/atomic; C4 every other field of a lock-bearing type is never stored to on a shared object outside constructors/option closures (setup-time setters listed); " +
 			"C5 the held→acquired lock graph is acyclic, no mutex is re-acquired while held on the same object, and no WaitGroup.Wait/blocking channel operation happens under a lock its counterpart can need; D4 the close of each lifecycle channel and the isClosed/Add/go start sequence run under the same mutex; H3 every plain send on a channel that a Close method closes is made on the not-closed branch of a closed test while a lock is read-held that the closing site holds exclusively (Close racing with traffic cannot send on a closed channel).",
 		notDecided:  "races on memory the table does not name (fields of pion/rtp, pion/rtcp, x/time/rate objects; the Attributes map handed to packetdump's logger goroutine), lost updates that are not data races, liveness, stalls while a private lock is held across a downstream Write (noted, not a violation)",
-		sels:        []sel{s("O4"), s("C9"), s("C8"), s("C7"), s("C1"), s("C2"), s("C3"), s("C4"), s("C5"), s("C6"), s("D4"), s("H3")},
+		sels:        []sel{s("O5"), s("O4"), s("C9"), s("C8"), s("C7"), s("C1"), s("C2"), s("C3"), s("C4"), s("C5"), s("C6"), s("D4"), s("H3")},
 		assumptions: append([]string{"locks are identified by (struct type, field): two instances of one type are not distinguished", "the guard table and confinement table are hand-confirmed; every row must resolve to at least one access or the check fails", "exported methods are entry points with an empty lockset"}, stdAssume...),
 	})
 	def(&propDef{
@@ -78,7 +78,7 @@ func init() {
 			"T1 — retain/release typestate: every packet obtained from RTPBuffer.Get is released exactly once after its last use, every slot overwrite in RTPBuffer.Add/Clear releases the previous occupant exactly once, Get hands out only packets that passed a successful Retain (a double release would recycle a buffer that is still being retransmitted); " +
 			"C1 — ring, stream table and reference count are only touched under their mutexes; A1 — the original packet is forwarded exactly once after the copy; D5 — unbind removes the stream's ring.",
 		notDecided:  "which sequence numbers the ring holds (window arithmetic seq%size, half-range tests), RTX header field values, the padding arithmetic, that the retransmission goroutine has finished when Close returns (known finding under C11)",
-		sels: []sel{s("O2", `inspected|pkg/nack`), s("U2", `\|(internal/rtpbuffer|pkg/nack)[.:]`), s("U1", `\|(internal/rtpbuffer|pkg/nack)[.:]`), s("T6"), s("W1", `\|(internal/rtpbuffer|pkg/nack)[.:]`), s("V1", `\|(internal/rtpbuffer|pkg/nack)[.:]`), so("T5", `rtpbuffer`), so("C6", `nack\..*lookup-delete`), s("J5", `\|(internal/rtpbuffer|pkg/nack)[.:]`), so("T4", `rtpbuffer`), s("C8", `nack\.|inspected`), s("J4", `\|(internal/rtpbuffer|pkg/nack)[.:]`), so("F6", `rtpbuffer`), s("P3", `rtpbuffer\.RTPBuffer`), s("F2", `rtpbuffer`), s("B", `nack\.\(\*ResponderInterceptor\)`), s("T1"), so("T2"), s("C1", `pkg/nack\.(localStream|ResponderInterceptor)\.|rtpbuffer\.RetainablePacket\.`),
+		sels: []sel{so("T7"), s("O5", `inspected|pkg/nack`), s("O2", `inspected|pkg/nack`), s("U2", `\|(internal/rtpbuffer|pkg/nack)[.:]`), s("U1", `\|(internal/rtpbuffer|pkg/nack)[.:]`), s("T6"), s("W1", `\|(internal/rtpbuffer|pkg/nack)[.:]`), s("V1", `\|(internal/rtpbuffer|pkg/nack)[.:]`), so("T5", `rtpbuffer`), so("C6", `nack\..*lookup-delete`), s("J5", `\|(internal/rtpbuffer|pkg/nack)[.:]`), so("T4", `rtpbuffer`), s("C8", `nack\.|inspected`), s("J4", `\|(internal/rtpbuffer|pkg/nack)[.:]`), so("F6", `rtpbuffer`), s("P3", `rtpbuffer\.RTPBuffer`), s("F2", `rtpbuffer`), s("B", `nack\.\(\*ResponderInterceptor\)`), s("T1"), so("T2"), s("C1", `pkg/nack\.(localStream|ResponderInterceptor)\.|rtpbuffer\.RetainablePacket\.`),
 			s("A1", `nack\.\(\*ResponderInterceptor\)`), s("D5", `nack\.ResponderInterceptor`)},
 		assumptions: stdAssume,
 	})
@@ -90,7 +90,7 @@ func init() {
 		explanation: "Decides a necessary structural clause for every long-lived container of the library (every map, slice, list, sync.Map and channel field of a struct type that another struct holds, plus slices local to goroutine loops and the jitter buffer's linked list): E1 — a container that grows on a traffic path (reachable from a per-packet closure, a goroutine entry or a pacer/estimator entry point) also shrinks on a traffic path, or is of a bounded kind (channel with a configured capacity, map keyed by a ≤16-bit type, owner struct replaced as a whole, per-call temporary); " +
 			"E2 — a shrink site that only executes when a struct field is set counts only if something in the program sets that field; E3 — where a growing slice is processed on an equality trigger len(x)==N, every path from that branch resets it (otherwise the length passes N and the trigger never fires again); D5 — per-stream containers filled by Bind*Stream are emptied by the matching Unbind*Stream.",
 		notDecided:  "the numeric bound itself; whether an existing shrink runs often enough; GC reachability through third-party objects; growth hidden inside pion/rtp, pion/rtcp or x/time/rate",
-		sels:        []sel{s("E5"), s("E4", `\|pkg/stats[.:]`), s("K4", `\|pkg/stats[.:]`), s("C6", `keyed-update`), s("E1"), s("E2"), so("E3"), s("D5")},
+		sels:        []sel{s("E6"), s("E5"), s("E4", `\|pkg/stats[.:]`), s("K4", `\|pkg/stats[.:]`), s("C6", `keyed-update`), s("E1"), s("E2"), so("E3"), s("D5")},
 		assumptions: []string{"go/ssa and go/types model the program faithfully", "traffic paths are the call-graph closure of per-packet closures, goroutine entries and the exported per-packet entry points of pacers/estimators/recorders"},
 	}
 }
@@ -129,7 +129,7 @@ func init() {
 		explanation: "Decides the structural clauses the statement singles out: G1 — in every function that walks []*rtcp.RecvDelta with a cursor, no instruction that advances the cursor is control-dependent (post-dominator based, transitively) on a condition derived from a lookup in long-lived state (a comma-ok map lookup on a field, or a (T,bool) lookup predicate such as feedbackHistory.get): the arrival time decoded for a packet is independent of whether neighbouring packets are still in the history; " +
 			"G2 — in every symbol loop, the counter that feeds the attribution key (feedbackHistoryKey.sequenceNumber / acknowledgement.sequenceNumber) is advanced exactly once on every path through the loop body (path counting), or is the range index; F1 — every index into RecvDeltas / packet-derived slices is guarded; E2 — the flag that lets history.delete release the TWCC mapping is actually set.",
 		notDecided:  "arrival-time arithmetic (reference time ×64 ms, 250 µs deltas, RFC 8888 offsets), LRU contents of the sent-packet history, that each sent packet is reported at most once and in send order (value properties of history.buildReport), zero-valued acknowledgements emitted for unknown packets",
-		sels:        []sel{s("O4", `inspected|rtpfb|internal/cc`), s("O2", `inspected|rtpfb`), s("A9"), s("W1", `\|(pkg/rtpfb|internal/cc)[.:]`), s("V1", `\|(pkg/rtpfb|internal/cc)[.:]`), s("J5", `\|(pkg/rtpfb|internal/cc)[.:]`), s("F7"), s("G3", `rtpfb`), s("P3", `rtpfb\.history`), s("J3", `\|(pkg/rtpfb|internal/cc)[.:]`), so("G1"), so("G2"), so("F1", `rtpfb\.convertTWCC|FeedbackAdapter|rtpfb\.convert`), so("E2", `rtpfb\.history`), so("E1", `rtpfb\.history`)},
+		sels:        []sel{s("G4", `inspected|internal/cc|rtpfb`), s("O4", `inspected|rtpfb|internal/cc`), s("O2", `inspected|rtpfb`), s("A9"), s("W1", `\|(pkg/rtpfb|internal/cc)[.:]`), s("V1", `\|(pkg/rtpfb|internal/cc)[.:]`), s("J5", `\|(pkg/rtpfb|internal/cc)[.:]`), s("F7"), s("G3", `rtpfb`), s("P3", `rtpfb\.history`), s("J3", `\|(pkg/rtpfb|internal/cc)[.:]`), so("G1"), so("G2"), so("F1", `rtpfb\.convertTWCC|FeedbackAdapter|rtpfb\.convert`), so("E2", `rtpfb\.history`), so("E1", `rtpfb\.history`)},
 		assumptions: std,
 	}
 	props["C16"] = &propDef{
@@ -244,6 +244,11 @@ func init() {
 	add("C09", "W1 no successful return hands back a named result that nothing ever assigned while sibling returns compute that position (the running reference time of the TWCC chunk unpackers restarts at zero).")
 	add("C09", "O4 the factory hands every interceptor a history of its own: nothing stored into the interceptor that NewInterceptor builds is a stateful object (or a struct referring to one) taken from the factory.")
 	add("C10", "O4 no NewInterceptor method shares a stateful object (mutex, map or channel inside) between the interceptors it builds.")
+	add("C04", "T7 a packet stored into the ring without becoming its newest has been tested to lie within the last `size` numbers (or the store is on no such path): a late send from outside the window does not evict the in-window packet of the same slot. O5 a retransmission hands the next writer a header of its own, not the one kept in the ring (concurrent retransmissions of one packet would hand the same object to writers that modify it).")
+	add("C10", "O5 a function started with `go` per event passes downstream only headers it owns.")
+	add("C12", "E6 a container that gets an entry per RTP packet is cut back on the media path or by a periodic loop — removal only where feedback is read does not bound it when the peer sends none.")
+	add("C09", "G4 a result slice with one slot per input position whose slots are assigned only where the history look-up succeeds is not returned whole: positions not found would be reported as zero-valued acknowledgements.")
+	add("C13", "B also: objects obtained from the attributes' parse caches (GetRTPHeader, GetRTCPPackets) still refer to the read buffer — extension payloads, raw / application-defined RTCP packets, profile extensions of reports; RTCP types whose Unmarshal copies everything (frozen table, pion/rtcp v1.2.17) do not. A reference parked in a struct field that nothing ever reads is not counted.")
 	add("C04", "U2 nothing reachable from RTPBuffer.Add sets `started` back to false: a jump handled by clearing the whole ring must not make the next (possibly late) packet a first packet that re-seeds highestAdded.")
 	add("C04", "U1 in the function that has the ring's first-packet branch (`if !started { started = true; highestAdded = seq … }`), no field that branch initialises is read before the flag test: a fast path ahead of it would file the first packet as the successor of number 0.")
 	add("C20", "U1 the unwrapper's last value is not read ahead of its first-call test.")
